@@ -9,6 +9,7 @@ the model stops with `unsupported` if (and only if) it has to evaluate it.  Noth
 import ast
 import collections
 import re
+import warnings
 
 from ..impl import valjson as vj
 
@@ -57,7 +58,9 @@ def _string_literal(quote, body, static_checks=True):
         if re.search(VAR_PATTERN, t):
             return _unsupported("`$name` inside a string literal")
         try:
-            val = ast.literal_eval(quote + t + quote)
+            with warnings.catch_warnings():
+                warnings.simplefilter("ignore")
+                val = ast.literal_eval(quote + t + quote)
         except Exception:  # noqa
             return _unsupported("string literal the translator cannot decode")
         if not isinstance(val, str):
@@ -86,7 +89,9 @@ def expr_to_json(expr):
     src = re.sub(STRING_PATTERN, repl, expr)
     src = re.sub(VAR_PATTERN, r"var_\1", src)
     try:
-        tree = ast.parse(src.strip(), mode="eval")
+        with warnings.catch_warnings():
+            warnings.simplefilter("ignore")
+            tree = ast.parse(src.strip(), mode="eval")
     except SyntaxError:
         return _unsupported("expression does not parse as Python")
     return _conv(tree.body, strings)
